@@ -940,27 +940,36 @@ def f_percentile(a, q, **kw):
 
 
 class _Random:
-    """numpy.random as an explicit state cell with an access log (C09)."""
+    """numpy.random as an explicit state cell with an access log (C09). The state is the documented legacy tuple
+    ('MT19937', key, pos, has_gauss, cached_gaussian); set_state also accepts the 3-tuple form, which resets the last
+    two fields to 0 and 0.0 as numpy documents."""
 
     def __init__(self):
-        self.state = ('MT19937', 'initial')
+        self.state = ('MT19937', 'key0', 624, 0, 0.0)
         self.log = []
 
-    def get_state(self, *a, **k):
+    def get_state(self, legacy=True):
         self.log.append('get_state')
-        return self.state
+        if not legacy:
+            raise ShimGap('numpy.random.get_state(legacy=False)')
+        return tuple(self.state)
 
     def set_state(self, st):
         self.log.append('set_state')
+        st = tuple(st)
+        if len(st) == 3:
+            st = st + (0, 0.0)
+        if len(st) != 5 or st[0] != 'MT19937':
+            raise ValueError('state must be a tuple of 3 or 5 items starting with MT19937')
         self.state = st
 
     def seed(self, v=None):
         self.log.append('seed')
-        self.state = ('MT19937', ('seeded', v))
+        self.state = ('MT19937', ('seeded', v), 624, 0, 0.0)
 
     def consume(self, what):
         self.log.append(what)
-        self.state = ('MT19937', ('advanced', self.state[1], what))
+        self.state = ('MT19937', ('advanced', self.state[1], what), self.state[2], ('gauss-after', what), ('cached-after', what))
 
     def __getattr__(self, n):
         if n.startswith('__'):
